@@ -265,3 +265,125 @@ Proof.
     eapply Forall2_impl_in; [|exact IH|exact G].
     intros tm x Hx H1. cbn beta in *. cbn [ojn_time_go]. rewrite (proj2 (Qle_bool_iff _ _) Hx). exact H1.
 Qed.
+
+(* ================================================================== 2. the oracle is sound *)
+Lemma remove_first_perm {A} (p : A -> bool) l l' : remove_first p l = Some l' ->
+  exists x, p x = true /\ Permutation l (x :: l').
+Proof.
+  revert l'; induction l as [|y r IH]; intros l' H; [discriminate|].
+  cbn [remove_first] in H. destruct (p y) eqn:E.
+  - injection H as <-. exists y. split; auto.
+  - destruct (remove_first p r) as [r'|] eqn:E'; [|discriminate]. injection H as <-.
+    destruct (IH r' eq_refl) as (x & Hx & Hp). exists x. split; auto.
+    apply perm_trans with (y :: x :: r'); [apply perm_skip; exact Hp|apply perm_swap].
+Qed.
+
+Lemma ms_match_sound {A} (close : A -> A -> bool) a : forall b,
+  ms_match close a b = true -> rows_match (fun x y => close x y = true) a b.
+Proof.
+  induction a as [|x a' IH]; intros b H; cbn [ms_match] in H.
+  - destruct b; [|discriminate]. exists []. split; constructor.
+  - destruct (remove_first (close x) b) as [b'|] eqn:E; [|discriminate].
+    destruct (remove_first_perm _ _ _ E) as (y & Hy & Hp).
+    destruct (IH b' H) as (b'' & Hp' & F).
+    exists (y :: b''). split; [|constructor; auto].
+    apply perm_trans with (y :: b'); auto.
+Qed.
+
+Lemma maps_close_sound tol a : forall b, maps_close tol a b = true -> Forall2 (map_matches tol) a b.
+Proof.
+  induction a as [|x a' IH]; intros [|y b'] H; cbn in H; try discriminate; constructor.
+  - unfold map_close, map_close_gen in H. repeat (apply andb_true_iff in H as [H ?]).
+    repeat split; apply ms_match_sound; auto.
+  - apply IH. apply andb_true_iff in H as [_ H]. exact H.
+Qed.
+
+Theorem specb_sound tol f out : specb tol f out = true -> OjnSpec tol f out.
+Proof.
+  unfold specb, OjnSpec. destruct (ojn_denote f) as [d|]; [|discriminate].
+  destruct out as [o|]; [|discriminate]. intro H. exists d, o. split; auto. split; auto.
+  unfold oset_close in H. apply andb_true_iff in H as [H1 H2]. split; auto.
+  apply maps_close_sound. exact H2.
+Qed.
+
+(* ================================================================== 3. witnesses: the pinned tree *)
+(* a header (bpm 120) followed by the given packages of the first difficulty *)
+Definition w_hdr : fhdr :=
+  mkFHdr 7 [111; 106; 110]%Z 1077516698 2 1123024896 [1; 2; 3; 0]%Z [0; 0; 0]%Z [0; 0; 0]%Z [0; 0; 0]%Z
+         29 7 [] 0 0 [116]%Z [97]%Z [110]%Z [120]%Z 0 [0; 0; 0]%Z [300; 300; 300]%Z 300.
+Definition tap : list Z := [1; 0; 0; 0]%Z.
+Definition head_ : list Z := [1; 0; 0; 2]%Z.
+Definition tail_ : list Z := [1; 0; 0; 3]%Z.
+Definition f32_240 : list Z := [0; 0; 112; 67]%Z.
+Definition f32_60 : list Z := [0; 0; 112; 66]%Z.
+
+(* tempo 240 at measure 1; taps at measures 0 and 2 *)
+Definition w_sweep : ofile :=
+  mkFile w_hdr [[mkPkg 1 1 1 [(0, f32_240)]; mkPkg 0 2 1 [(0, tap)]; mkPkg 2 2 1 [(0, tap)]]; []; []]%Z.
+(* no tempo event, one tap *)
+Definition w_notempo : ofile := mkFile w_hdr [[mkPkg 1 2 1 [(0, tap)]]; []; []]%Z.
+(* tempo at measure 0 slot 0; taps at measures 1 and 2 *)
+Definition w_tempo0 : ofile :=
+  mkFile w_hdr [[mkPkg 0 1 1 [(0, f32_240)]; mkPkg 1 2 1 [(0, tap)]; mkPkg 2 2 1 [(0, tap)]]; []; []]%Z.
+(* tempo 60 at measure 0: long note from measure 0 to 1/3 of measure 1: 4000 + 1333.33 ms, head offset 0 *)
+Definition w_trunc : ofile :=
+  mkFile w_hdr [[mkPkg 0 1 1 [(0, f32_60)]; mkPkg 0 2 1 [(0, head_)]; mkPkg 1 2 3 [(1, tail_)]]; []; []]%Z.
+
+Theorem ojn_tempo_times_refuted :
+  wf_file w_sweep = true /\ exists o, read_now (encode_file w_sweep) = Some o /\ specb 0 w_sweep (Some o) = false
+  /\ map om_bpms (os_maps o) = [[mkBpm 0 120; mkBpm 0 240]; [mkBpm 0 120]; [mkBpm 0 120]]
+  /\ map om_hits (os_maps o) = [[mkHit 0 0 0 0; mkHit 0 4000 0 0]; []; []].
+Proof. split; [vm_compute; reflexivity|]. eexists. split; [vm_compute; reflexivity|]. vm_compute. auto. Qed.
+
+Theorem ojn_no_tempo_event_refuted :
+  wf_file w_notempo = true /\ read_now (encode_file w_notempo) = None /\ ojn_denote w_notempo <> None.
+Proof. split; [vm_compute; reflexivity|]. split; [vm_compute; reflexivity|]. vm_compute. discriminate. Qed.
+
+Theorem ojn_tempo_at_measure_0_refuted :
+  wf_file w_tempo0 = true /\ read_now (encode_file w_tempo0) = None /\ ojn_denote w_tempo0 <> None.
+Proof. split; [vm_compute; reflexivity|]. split; [vm_compute; reflexivity|]. vm_compute. discriminate. Qed.
+
+Theorem ojn_hold_length_refuted :
+  wf_file w_trunc = true
+  /\ (exists o, read_with true true (encode_file w_trunc) = Some o /\ specb (1 # 1000000) w_trunc (Some o) = false
+        /\ map om_holds (os_maps o) = [[mkHold 0 0 5333 0 0]; []; []])
+  /\ (exists o, read_fixed (encode_file w_trunc) = Some o /\ specb 0 w_trunc (Some o) = true
+        /\ map om_holds (os_maps o) = [[mkHold 0 0 (16000 # 3) 0 0]; []; []]).
+Proof.
+  split; [vm_compute; reflexivity|]. split.
+  - eexists. split; [vm_compute; reflexivity|]. vm_compute. auto.
+  - eexists. split; [vm_compute; reflexivity|]. vm_compute. auto.
+Qed.
+
+(* the repaired reader is right on all four witnesses *)
+Theorem ojn_fixed_on_witnesses :
+  forallb (fun f => wf_file f && specb 0 f (read_fixed (encode_file f))) [w_sweep; w_notempo; w_tempo0; w_trunc] = true.
+Proof. vm_compute. reflexivity. Qed.
+
+(* guarded form for the pinned tree: a difficulty without notes is read without error and every tempo
+   point is put at 0 ms -- which is right exactly when every tempo event sits at position 0 (stay_put) *)
+Lemma insert_by_Forall {A} (P : A -> Prop) key x l : P x -> Forall P l -> Forall P (insert_by key x l).
+Proof.
+  intros Hx H; induction H as [|y r Hy Hr IH]; cbn [insert_by]; [repeat constructor; auto|].
+  destruct (Qle_bool (key x) (key y)); repeat constructor; auto.
+Qed.
+Lemma sort_by_Forall {A} (P : A -> Prop) key l : Forall P l -> Forall P (sort_by key l).
+Proof. intro H; induction H; cbn; [constructor|apply insert_by_Forall; auto]. Qed.
+Lemma bpm_rows_nil_zero l : Forall (fun r => b_off r = 0) (bpm_rows l []).
+Proof. induction l as [|[m b] r IH]; cbn; constructor; auto. Qed.
+
+Theorem ojn_now_guarded_no_notes pkgs init :
+  Forall (fun e => is_bpm e = true) (concat pkgs) ->
+  exists rows, read_pkgs_now pkgs init = Some (mkOMap [] [] (mkBpm 0 init :: rows))
+    /\ Forall (fun r => b_off r = 0) rows.
+Proof.
+  intro H. unfold read_pkgs_now, read_pkgs_with.
+  assert (E1 : existsb (fun e => match e with EMeasureChange => true | _ => false end) (concat pkgs) = false).
+  { induction H as [|e r He Hr IH]; cbn; auto. destruct e; try discriminate; auto. }
+  rewrite E1.
+  pose proof (sort_by_Forall _ key_of _ H) as Hs.
+  assert (E2 : filter (fun e => negb (is_bpm e)) (sort_by key_of (concat pkgs)) = []).
+  { induction Hs as [|e r He Hr IH]; cbn; auto. rewrite He. cbn. exact IH. }
+  rewrite E2. cbn [note_measures_of flat_map sort_by fold_right dedup_adj sweep_now assign_notes sw_done].
+  eexists. split; [reflexivity|]. apply bpm_rows_nil_zero.
+Qed.
